@@ -251,7 +251,8 @@ func RemoveAll(fs FS, path string) error {
 }
 
 func removeAll(fs FS, path string) error {
-	info, err := Stat(fs, path)
+	// like os.RemoveAll, never follow a symbolic link: remove the link itself, not what it points to
+	info, err := LstatOrStat(fs, path)
 	if err != nil {
 		if errors.Is(err, ErrNotExist) {
 			err = nil
